@@ -88,3 +88,13 @@ func VerifScan[T TSTable, O any](db TSDB[T, O], reopen bool) (int, error) {
 func VerifSegmentCount[T TSTable, O any](db TSDB[T, O]) int {
 	return len(db.(*database[T, O]).segmentController.copySegments())
 }
+
+// VerifSegmentTracer receives segment life-cycle events (closed / deleted) at the point where they happen, under the
+// segment's mutex.  nil unless a harness installs one.
+var VerifSegmentTracer func(event, location string)
+
+func verifSegmentEvent(event, location string) {
+	if f := VerifSegmentTracer; f != nil {
+		f(event, location)
+	}
+}
